@@ -119,6 +119,11 @@ def check(model: Model, run: Run) -> None:
     argument_mutation(model, run, fns)
     # ---- (e) a constructed value is flushed as written, under the tag it was opened with ----
     constructed_flush(model, run)
+    # ---- (f) one implementation of the integer content octets; readers and sub-readers cannot be refused ----
+    hand_built_integer_content(model, run, mr)
+    reader_construction_total(model, run, mr)
+    from ..readerrules import lemma_peek_is_pure
+    lemma_peek_is_pure(model, run)
 
 
 
@@ -356,3 +361,81 @@ def _compatible(ft, pt) -> bool:
     def is_intlike(t_):
         return t_ in ints or (t_[0] == "inst" and t_[1].endswith("TypeTagNumber"))
     return is_intlike(ft) and is_intlike(pt)
+
+
+def hand_built_integer_content(model: Model, run: Run, mr) -> None:
+    """S7: on the INTEGER / ENUMERATED write paths, content octets that are not produced by the two's-complement routine but
+    built by hand (`bytes((v,))`, `bytes([v])`, `v.to_bytes(k, ...)`) are correct only if v is known to fit: one octet holds
+    -128..127, so an unsigned shortcut must be guarded by v <= 127 (k octets: v < 2**(8k-1)), and k must be minimal."""
+    from ..anchors import asn1 as asn1_anchors, reachable
+    from ..facts import FactFlow
+    an = asn1_anchors(model)
+    wr = model.cls(f"{ASN1}.ASN1Writer")
+    fam = {}
+    for mname in ("write_integer", "write_enumerated"):
+        m_ = wr.methods.get(mname)
+        if m_ is None:
+            raise AnalysisError(f"ASN1Writer.{mname} not found")
+        fam[m_.qualname] = m_
+        h = an.writer_helper.get(mname)
+        for f in ([h] + reachable(model, h) if h is not None else []):
+            if f not in an.packer_family or f is h:
+                fam[f.qualname] = f
+    n = 0
+    for fq, fi in fam.items():
+        ps = [p_ for p_ in fi.params() if p_ not in ("self", "tag")]
+        fl = mr.flow_for(fi)
+        for x in walk_no_nested(fi.node):
+            elems, k, signed = None, 1, False
+            if isinstance(x, ast.Call) and isinstance(x.func, ast.Name) and x.func.id in ("bytes", "bytearray") and len(x.args) == 1 and isinstance(x.args[0], (ast.Tuple, ast.List)):
+                elems = list(x.args[0].elts)
+            elif isinstance(x, ast.Call) and isinstance(x.func, ast.Attribute) and x.func.attr == "to_bytes" and isinstance(x.func.value, ast.Name):
+                elems = [x.func.value]
+                ka = x.args[0] if x.args else next((kw.value for kw in x.keywords if kw.arg == "length"), None)
+                k = ka.value if isinstance(ka, ast.Constant) and isinstance(ka.value, int) else None
+                signed = any(kw.arg == "signed" and isinstance(kw.value, ast.Constant) and kw.value.value is True for kw in x.keywords)
+            if not elems:
+                continue
+            vals = [e_ for e_ in elems if any(isinstance(y, ast.Name) and y.id in ps for y in ast.walk(e_))]
+            if not vals:
+                continue
+            n += 1
+            facts = fl.facts_at.get(id(x), frozenset())
+            ok, why = True, ""
+            if k is None:
+                # a computed octet count: fine when it is the minimal count (decided by Engine C's to_bytes rule under A1)
+                continue
+            if len(vals) != 1 or (len(elems) != k and not isinstance(x.func, ast.Attribute)):
+                ok, why = False, "content assembled from several hand-picked octets"
+            else:
+                lo, hi = mr.ival(vals[0], facts, fi)
+                top = 2 ** (8 * k - 1) - 1
+                bottom = -(2 ** (8 * k - 1)) if signed else 0
+                need_lo = bottom if k == 1 else (2 ** (8 * (k - 1) - 1))        # k > 1 octets are minimal only above the (k-1)-octet range
+                if not (lo >= need_lo and hi <= top):
+                    ok = False
+                    why = (f"`{norm(vals[0])}` is in [{lo}, {hi}] here but {k} content octet(s) of two's complement hold "
+                           f"{bottom}..{top}" + ("" if k == 1 else f" and are minimal only from {need_lo}"))
+            run.ob("S7-hand-built-integer-content-fits", ok, {"function": fi.name, "expression": norm(x)[:60]})
+            if not ok:
+                run.fail(Finding("S7-hand-built-integer-content-fits", fq, norm(x)[:80],
+                                 f"{fi.name} builds INTEGER/ENUMERATED content octets by hand with `{norm(x)[:60]}`: {why}; the value read back differs "
+                                 "(e.g. 200 written as C8 is -56) or the encoding is not minimal", model.loc(fi.module, x)))
+    run.coverage["hand_built_integer_contents"] = n
+    run.ob("S7-hand-built-integer-content-fits", True, {"functions": sorted(q.split(".")[-1] for q in fam)})
+
+
+def reader_construction_total(model: Model, run: Run, mr) -> None:
+    """A3: building an ASN1Reader (which read_sequence / read_set do for every constructed value) cannot fail: any nesting the
+    writer can produce must be readable."""
+    init = model.find_method(f"{ASN1}.ASN1Reader", "__init__")
+    if init is None:
+        raise AnalysisError("ASN1Reader.__init__ not found")
+    esc = mr.escapes(init.qualname, f"{ASN1}.ASN1Reader")
+    ok = not esc
+    run.ob("A3-reader-construction-cannot-fail", ok, {"escapes": [e.short() for e in sorted(esc, key=str)][:4]})
+    if not ok:
+        e0 = sorted(esc, key=str)[0]
+        run.fail(Finding("A3-reader-construction-cannot-fail", init.qualname, f"{e0.exc.split('.')[-1]}|{e0.text[:60]}",
+                         f"ASN1Reader.__init__ can raise {e0.exc.split('.')[-1]} (`{e0.text[:60]}`): some value the writer produces (deep nesting, large content) "
+                         "can then not be read back", f"{model.relpath(ASN1)}:{e0.line}"))
